@@ -20,9 +20,11 @@ for m in muts:
         shutil.copytree("/repo/rope", os.path.join(d, "rope"), ignore=shutil.ignore_patterns("__pycache__"))
         fp = os.path.join(d, m["file"])
         s = open(fp).read()
-        if s.count(m["old"]) < 1:
+        edits = m.get("edits") or [[m["old"], m["new"]]]
+        if any(s.count(o) < 1 for o, n in edits):
             print("MUTANT-STALE", m["name"]); missed.append(m["name"]); continue
-        s = s.replace(m["old"], m["new"], m.get("count", 1))
+        for o, n in edits:
+            s = s.replace(o, n, m.get("count", 1))
         open(fp, "w").write(s)
         env = dict(os.environ, ROPE_SRC=d, VERIF_REEXEC="0", VERIF_NOSHRINK="1")
         env.pop("PYTHONPATH", None)
@@ -30,6 +32,7 @@ for m in muts:
         buckets = [l for l in r.stdout.splitlines() if l.startswith("violation bucket") or l.startswith("fixed finding")]
         status = {0: "MISSED", 1: "DETECTED", 2: "HARNESS-ERROR"}.get(r.returncode, "?")
         print("%-14s %-40s %s" % (status, m["name"], (buckets[0][:150] if buckets else r.stdout.strip().splitlines()[-1][:150] if r.stdout.strip() else r.stderr[-300:])))
+        if r.returncode == 2: print("   | " + "\n   | ".join((r.stdout + r.stderr).strip().splitlines()[-12:]))
         if r.returncode != 1: missed.append(m["name"])
     finally:
         shutil.rmtree(d, ignore_errors=True)
